@@ -3,9 +3,11 @@ package main
 import (
 	"encoding/json"
 	"fmt"
+	"io"
 	"net/http/httptest"
 	"strings"
 	"sync/atomic"
+	"testing/iotest"
 
 	"go.uber.org/zap"
 	"go.uber.org/zap/zapcore"
@@ -42,14 +44,24 @@ type request struct {
 	CT     string  `json:"content_type"`
 	Body   *bodyT  `json:"body"`
 	Query  *queryT `json:"query"`
+	Stream bool    `json:"stream,omitempty"` // the body arrives without a declared length (chunked / streamed upload: ContentLength -1)
 }
+
+// streamed hides the reader's concrete type, so that the request carries no Content-Length.
+type streamed struct{ r io.Reader }
+
+func (s streamed) Read(p []byte) (int, error) { return s.r.Read(p) }
 
 func (r *request) String() string {
 	t := "/log/level"
 	if r.Query.Raw != "" {
 		t += "?" + r.Query.Raw
 	}
-	return fmt.Sprintf("%s %s [Content-Type: %q] body %q", r.Method, t, r.CT, r.Body.Raw)
+	how := ""
+	if r.Stream {
+		how = " (sent without a declared length)"
+	}
+	return fmt.Sprintf("%s %s [Content-Type: %q] body %q%s", r.Method, t, r.CT, r.Body.Raw, how)
 }
 
 const (
@@ -200,12 +212,16 @@ func alphabet(methods, cts []string, bodies []*bodyT, queries []*queryT) (rs []*
 		for _, ct := range cts {
 			for _, b := range bodies {
 				for _, q := range queries {
-					r := &request{m, ct, b, q}
+					r := &request{Method: m, CT: ct, Body: b, Query: q}
 					if excluded(r) {
 						skipped++
 						continue
 					}
 					rs = append(rs, r)
+					if b.Raw != "" {
+						// the same request with the body streamed (no declared length)
+						rs = append(rs, &request{Method: m, CT: ct, Body: b, Query: q, Stream: true})
+					}
 				}
 			}
 		}
@@ -427,7 +443,14 @@ func (g *rig) serve(r *request) (o obs) {
 	if r.Query.Raw != "" {
 		target += "?" + r.Query.Raw
 	}
-	req := httptest.NewRequest(r.Method, target, strings.NewReader(r.Body.Raw))
+	var body io.Reader = strings.NewReader(r.Body.Raw)
+	if r.Stream {
+		body = streamed{iotest.OneByteReader(strings.NewReader(r.Body.Raw))}
+	}
+	req := httptest.NewRequest(r.Method, target, body)
+	if r.Stream && req.ContentLength != -1 {
+		panic("harness: streamed request has a declared length")
+	}
 	if r.CT != "" {
 		req.Header.Set("Content-Type", r.CT)
 	}
@@ -622,7 +645,7 @@ func httpPart(run *ev.Run) httpStats {
 			after, _ := c.step(g, j.r, true, func() any { return traceCase{"http", int(j.s), []*request{j.r}} })
 			succ[i] = after
 			// a GET afterwards reports the same level (observation from every reached state)
-			get := &request{"GET", "", &bodyT{Name: "empty"}, &queryT{Name: "none"}}
+			get := &request{Method: "GET", Body: &bodyT{Name: "empty"}, Query: &queryT{Name: "none"}}
 			c.step(g, get, false, func() any { return traceCase{"http", int(j.s), []*request{j.r, get}} })
 		})
 		for i, j := range jobs {
@@ -631,7 +654,7 @@ func httpPart(run *ev.Run) httpStats {
 			st.steps += 2
 			v := refServe(j.r)
 			if j.r.Method == "PUT" {
-				distinct[fmt.Sprintf("%d|PUT|%s|%s|%s", j.s, j.r.CT, j.r.Body.Name, j.r.Query.Name)] = true
+				distinct[fmt.Sprintf("%d|PUT|%s|%s|%s|%v", j.s, j.r.CT, j.r.Body.Name, j.r.Query.Name, j.r.Stream)] = true
 			} else {
 				distinct[fmt.Sprintf("%d|%s", j.s, j.r.Method)] = true
 			}
@@ -669,7 +692,7 @@ func httpPart(run *ev.Run) httpStats {
 	if !run.Thorough() {
 		pairAlpha = nil
 		for _, r := range core {
-			if (r.Method == "GET" || r.Method == "PUT" || r.Method == "POST") && (r.CT == "" || r.CT == "application/json" || r.CT == ctForm) {
+			if !r.Stream && (r.Method == "GET" || r.Method == "PUT" || r.Method == "POST") && (r.CT == "" || r.CT == "application/json" || r.CT == ctForm) {
 				pairAlpha = append(pairAlpha, r)
 			}
 		}
@@ -701,6 +724,9 @@ func httpPart(run *ev.Run) httpStats {
 	if run.Thorough() {
 		var sub []*request
 		for _, r := range core {
+			if r.Stream {
+				continue // streamed twins take part in the BFS and in the length-2 sequences
+			}
 			if (r.Method == "PUT" && (r.CT == "" || r.CT == ctForm)) || (r.Method == "GET" && r.CT == "" && r.Body.Raw == "" && r.Query.Raw == "") || (r.Method == "POST" && r.CT == ctForm && r.Body.Name == "form-valid-panic" && r.Query.Raw == "") {
 				sub = append(sub, r)
 			}
